@@ -37,7 +37,7 @@ MIN_NONTRIVIAL = {"quick": 40, "thorough": 350}
 REACH_FLOORS = {"routes_exercised": 60, "artefact_bytes_scanned": 100000, "unsanitized_runs_with_canaries_found": 3}
 SHARD_TIMEOUT = {"quick": 900, "thorough": 5400}
 
-ROUTES = ["authorization_header", "api_key_header", "marker_header", "basic_auth", "set_query", "set_header", "set_cookie", "url_userinfo", "generated_security", "response_set_cookie", "response_token_header"]
+ROUTES = ["schema_location_userinfo", "authorization_header", "api_key_header", "marker_header", "basic_auth", "set_query", "set_header", "set_cookie", "url_userinfo", "generated_security", "response_set_cookie", "response_token_header"]
 EXCLUSIVE = [("authorization_header", "basic_auth"), ("api_key_header", "generated_security")]
 
 
@@ -152,6 +152,11 @@ def execute(run, seed, scratch):
     if "set_cookie" in routes:
         secrets["set_cookie"] = (canary(rng, "scki"), None)
         args += ["--set-cookie", f"session={secrets['set_cookie'][0]}"]
+    schema_userinfo = None
+    if "schema_location_userinfo" in routes:
+        # the schema itself is fetched with credentials in its URL
+        secrets["schema_location_userinfo"] = (canary(rng, "sloc"), "carol")
+        schema_userinfo = f"carol:{secrets['schema_location_userinfo'][0]}"
     userinfo = None
     if "url_userinfo" in routes:
         # the user name may be empty (`http://:password@host`) or absent (`http://token@host`)
@@ -195,7 +200,7 @@ def execute(run, seed, scratch):
             else:
                 schemathesis.sanitization.configure(replacement="[Gone]")
 
-    result = engine.run_cli(document(), args, rules=rules, default=default, report_dir=report_dir, timeout=150, url_userinfo=userinfo, pre_run=pre_run)
+    result = engine.run_cli(document(), args, rules=rules, default=default, report_dir=report_dir, timeout=150, url_userinfo=userinfo, pre_run=pre_run, schema_userinfo=schema_userinfo, url_option_form=rng.choice(["separate", "equals"]))
     # restore defaults for the next run in this process
     from schemathesis.core.output import sanitization
 
@@ -221,7 +226,7 @@ def judge(run, result, secrets):
     # which routes reached the wire
     wire = "\n".join(r["raw_path"] + "\n" + "\n".join(f"{k}: {v}" for k, v in r["headers"]) for r in requests_)
     for route, (value, user) in secrets.items():
-        if route.startswith("response_"):
+        if route.startswith("response_") or route == "schema_location_userinfo":
             exercised.add(route)
         elif any(enc in wire for enc in encodings(value, user)):
             exercised.add(route)
